@@ -26,6 +26,19 @@ def parsePaving (s : String) : Option Paving :=
       | _ => none
     pure ⟨items.filterMap (·.1), items.filterMap (·.2)⟩
 
+/-- every box of a paving with its verdict (C18, resumed search) -/
+def parseItems (s : String) : Option (List Item) :=
+  if s == "-" then some [] else
+    (s.splitOn ",").mapM fun it =>
+      match it.splitOn "~" with
+      | ["I", b] => do let b ← parseBox b; pure ⟨"I", b, b, [], false⟩
+      | ["S", e, u, vs] => do pure ⟨"S", ← parseBox e, ← parseBox u, ← parseNatList vs, true⟩
+      | ["B", b] => do let b ← parseBox b; pure ⟨"B", b, b, [], false⟩
+      | ["B", b, vs] => do let b ← parseBox b; pure ⟨"B", b, b, ← parseNatList vs, true⟩
+      | ["U", b] => do let b ← parseBox b; pure ⟨"U", b, b, [], false⟩
+      | ["D", b] => do let b ← parseBox b; pure ⟨"D", b, b, [], false⟩
+      | _ => none
+
 def opsSolver (op : String) (ins outs : List String) : Option String :=
   match op, ins, outs with
   | "solvelog", [dags, specs, root, evs, pv], [_] => do
@@ -51,6 +64,34 @@ def opsSolver (op : String) (ins outs : List String) : Option String :=
           | .ok _ => false
         pure ("FAIL " ++ e.replace " " "-" ++ s!" at-event={k}")
     | _ => pure "FAIL log-does-not-start-with-the-root"
+  | "resumeload", [saved], [loaded] => do
+    let a ← parseItems saved
+    let b ← parseItems loaded
+    pure (if a == b then s!"ok loaded-identical" else "FAIL loaded-paving-differs-from-the-saved-one")
+  | "resumelog", [dags, specs, prev, evs, new], [_] => do
+    let ds ← (dags.splitOn "|").mapM parseProgram
+    let ss := specs.splitOn "|"
+    let eqs := ((List.zip ds ss).filter fun x => x.2 == "eq").map (·.1)
+    let cert : Box → Box × Box × List Nat → Bool := fun c eu => Newton.replaceCert eqs c eu.1 eu.2.2
+    let prev ← parseItems prev
+    let new ← parseItems new
+    let evs ← (if evs == "-" then some [] else (evs.splitOn ",").mapM parseEv)
+    let evs := evs.dropWhile fun e => match e with | .flush => true | _ => false
+    if Cover.stageOk cert prev new evs then
+      let nv := (prev.filter (·.validated)).length
+      let nr := prev.length - nv
+      pure s!"ok resumed carried={if nv == 0 then "0" else if nv < 4 then "few" else "many"} requeued={if nr == 0 then "0" else if nr < 4 then "few" else "many"}"
+    else
+      let roots := Cover.leadingPushes evs
+      match prev.find? (fun it => it.validated && !(decide (it ∈ new))) with
+      | some it => pure s!"FAIL validated-box-not-carried-over-unchanged kind={it.kind} box={showBox it.box}"
+      | none =>
+      match prev.find? (fun it => !it.validated && !(decide (it.box ∈ roots)) && !(decide (it.box ∈ new.map (·.box)))) with
+      | some it => pure s!"FAIL unknown-or-pending-box-not-requeued kind={it.kind} box={showBox it.box}"
+      | none =>
+      match Cover.check cert (Cover.pavingOf new) evs with
+      | .ok _ => pure "FAIL stage-rejected"
+      | .error e => pure ("FAIL resumed-log-rejected:" ++ e.replace " " "-")
   | "solvept", [dags, specs, pt, pv], _ => do
     let ds ← (dags.splitOn "|").mapM parseProgram
     let ss := specs.splitOn "|"
